@@ -351,6 +351,28 @@ func RuleTransport(r *Report, p *Program, rules aspectSet) {
 					t2 = "blocking read at " + p.Pos(pa.Events[ri].Pos) + " has no read deadline of now+timeout set before it"
 				}
 			}
+			// a stream connection is established by a blocking connect: connect and exchange share ONE budget, so the
+			// instant that bounds the dial (Dialer.Deadline) is the instant of the read deadline (one clock reading)
+			if sf.IsDial && len(pa.Events[openIdx].Args) >= 2 && len(reads) > 0 && t2 == "" {
+				if nw, ok := pa.Events[openIdx].Args[1].StrVal(); ok && strings.HasPrefix(nw, "tcp") {
+					dl := deepField(pa.Events[openIdx].Deep[0], "Deadline")
+					for i := openIdx; i < reads[0]; i++ {
+						e := pa.Events[i]
+						if e.Kind == "call" && (strings.HasSuffix(e.Name, ".SetDeadline") || strings.HasSuffix(e.Name, ".SetReadDeadline")) && mentions(e, conn) && len(e.Args) == 2 {
+							d := e.Args[1].String()
+							if j := strings.Index(d, "time.Now@"); j >= 0 {
+								k := j + len("time.Now@")
+								for k < len(d) && d[k] >= '0' && d[k] <= '9' {
+									k++
+								}
+								if !strings.Contains(dl, d[j:k]+"(") {
+									t2 = "the TCP connect is bounded by " + cut(dl, 60) + " but the read deadline by a later clock reading (" + cut(d, 60) + "): a slow connect followed by a silent peer takes up to two timeouts"
+								}
+							}
+						}
+					}
+				}
+			}
 			// an absolute deadline: nothing re-arms it once the request is on the wire
 			if len(writes) > 0 {
 				for i := writes[0] + 1; i < len(pa.Events); i++ {
